@@ -92,12 +92,15 @@ def same_fields(a, b):
 DevS = lambda **kw: T.Obj("pdfminer.pdfdevice:PDFDevice", **kw)
 c = contract("pdfminer.pdfinterp:PDFPageInterpreter.do_TJ", props=["C05"])
 c.param("self", InterpS(device=DevS(), ncs=T.Opaque("ncs"), graphicstate=GStateS()))
-c.param("seq", T.Opaque("seq"))
+c.param("seq", T.OneOf("an-array", 7, b"a string", None))
+c.wire = lambda bound, ghosts: bound.__setitem__("seq", [b"text", -120, b"more"]) if bound["seq"] == "an-array" else None
 c.may_raise(AssertionError, None)
-c.ens("shows-with-current-state", lambda self, seq, trace:
-      And([t[0] for t in trace] == ["PDFDevice.render_string"],
-          trace[0][1]["textstate"] is self.textstate, trace[0][1]["seq"] is seq, trace[0][1]["ncs"] is self.ncs,
-          trace[0][1]["graphicstate"] is not self.graphicstate, same_fields(trace[0][1]["graphicstate"], self.graphicstate)))
+# an array is shown with the current state (the graphic state as a copy); an operand that is not an array shows nothing (damaged content streams, C13)
+c.ens("shows-an-array-with-current-state-ignores-anything-else", lambda self, seq, trace:
+      (And([t[0] for t in trace] == ["PDFDevice.render_string"],
+           trace[0][1]["textstate"] is self.textstate, trace[0][1]["seq"] is seq, trace[0][1]["ncs"] is self.ncs,
+           trace[0][1]["graphicstate"] is not self.graphicstate, same_fields(trace[0][1]["graphicstate"], self.graphicstate))
+       if isinstance(seq, list) else len(trace) == 0))
 c.skip_cross = True
 
 # ' and " in terms of the other operators (modular: callee contracts only)
